@@ -1,7 +1,8 @@
 ------------------------------ MODULE ObfTrace ------------------------------
 (* C16 - trace validation.  trace.ndjson holds one event per executed case:       *)
 (*   {"ev":"obf","id":n,"entry":..,"excl":[{"n":..,"segs":[..]}],                  *)
-(*    "shape":"same"|<difference>,"leaves":[{"p":path,"t":type,"c":class},..]}     *)
+(*    "enc":<Content-Encoding value, "" = none>,"wire":"plain"|"gzip",             *)
+(*    "shape":"same"|"opaque"|<difference>,"leaves":[{"p":path,"t":type,"c":class},..]} *)
 (* The step guard is the property relation FlatOK of ObfP; a case the property     *)
 (* does not permit is reported as <<"REJECT", line, id, {offending leaves}>> and     *)
 (* validation goes on.  In the same pass the output (class at every leaf, "otree")  *)
@@ -17,7 +18,7 @@ Ev == TraceLog[l + 1]
 
 Permitted(e) ==
     /\ e.ev = "obf"
-    /\ FlatOK(e.shape, e.leaves, {e.excl[i] : i \in 1..Len(e.excl)}, e.entry)
+    /\ BodyOK(e.shape, e.leaves, {e.excl[i] : i \in 1..Len(e.excl)}, e.entry, e.enc, e.wire)
 
 \* the leaves (indices into e.leaves) the property does not permit - printed with a rejection
 BadLeaves(e) == {i \in 1..Len(e.leaves) :
